@@ -366,5 +366,247 @@ theorem visibleG_spec (t : Tree) (pens : Array (Option Pen)) (hok : TreeOk t) (h
     simp only [Option.some.injEq] at hown
     exact hv2 L C o hown hwo hmr
 
+/-! ### the loop of `_scrollrectset`, against two compositions -/
+
+/-- "Damaged or already right", against what the *new* composition `F'` shows inside the region `D` scrolled so far and
+    what the old composition `F` shows elsewhere. -/
+def MixedG (F F' : Int → Int → Option Cell) (D : Int → Int → Prop) (st : St) : Prop :=
+  ∀ L C, Covered st.tree.root.damage L C ∨ (D L C ∧ ∀ v, F' L C = some v → st.screen L C = v) ∨
+    (¬ D L C ∧ ∀ v, F L C = some v → st.screen L C = v)
+
+theorem mixedG_grow (F F' : Int → Int → Option Cell) (D : Int → Int → Prop) (ρ : Rect) (st st' : St)
+    (hM : MixedG F F' D st)
+    (hscr : ∀ L C, ¬ ρ.Mem L C → st'.screen L C = st.screen L C)
+    (hgrow : ∀ L C, ¬ ρ.Mem L C → Covered st.tree.root.damage L C → Covered st'.tree.root.damage L C)
+    (hin : ∀ L C, ρ.Mem L C → Covered st'.tree.root.damage L C ∨ ∀ v, F' L C = some v → st'.screen L C = v) :
+    MixedG F F' (fun L C => ρ.Mem L C ∨ D L C) st' := by
+  intro L C
+  by_cases hm : ρ.Mem L C
+  · rcases hin L C hm with h1 | h1
+    · exact Or.inl h1
+    · exact Or.inr (Or.inl ⟨Or.inl hm, h1⟩)
+  · rcases hM L C with h1 | ⟨h1, h2⟩ | ⟨h1, h2⟩
+    · exact Or.inl (hgrow L C hm h1)
+    · exact Or.inr (Or.inl ⟨Or.inr h1, fun v hv => by rw [hscr L C hm]; exact h2 v hv⟩)
+    · exact Or.inr (Or.inr ⟨fun hx => by rcases hx with hx | hx; exact hm hx; exact h1 hx,
+        fun v hv => by rw [hscr L C hm]; exact h2 v hv⟩)
+
+theorem mixedG_congr (F F' : Int → Int → Option Cell) (D D' : Int → Int → Prop) (st : St)
+    (h : ∀ L C, D L C ↔ D' L C) (hM : MixedG F F' D st) : MixedG F F' D' st := by
+  intro L C
+  rcases hM L C with h1 | ⟨h1, h2⟩ | ⟨h1, h2⟩
+  · exact Or.inl h1
+  · exact Or.inr (Or.inl ⟨(h L C).1 h1, h2⟩)
+  · exact Or.inr (Or.inr ⟨fun hx => h1 ((h L C).2 hx), h2⟩)
+
+/-- **One rectangle of the visible region**, every cell of which is exposed from the scrolled window: whichever way
+    `_scrollrectset` deals with it, the invariant moves on with the new composition inside it, provided the new
+    composition shows at a cell what the old one showed `(d, r)` away (both cells in the rectangle). -/
+theorem scrollOneG_step (oracle : Oracle) (F F' : Int → Int → Option Cell) (t0 : Tree) (st0 : St) (win : Id)
+    (T' L' d r : Int) (pen : Pen) (D : Int → Int → Prop) (acc acc' : St × Bool × Bool) (ρ : Rect)
+    (h : scrollOne oracle win T' L' d r pen acc ρ = .ok acc')
+    (hpos : RootsPositive t0) (hl : SLoopOk t0 st0 acc.1) (hρ : ρ.Nonempty)
+    (hexp : ∀ L C, ρ.Mem L C → ExposedAt t0 (t0.wins.size + 1) win (L - T') (C - L') L C ∧ ¬ D L C ∧
+      0 ≤ L ∧ L < st0.tlines ∧ 0 ≤ C ∧ C < st0.tcols)
+    (hsh : ∀ L C, ρ.Mem L C → ρ.Mem (L + d) (C + r) → ∀ v, F' L C = some v → F (L + d) (C + r) = some v)
+    (hM : MixedG F F' D acc.1) :
+    SLoopOk t0 st0 acc'.1 ∧ MixedG F F' (fun L C => ρ.Mem L C ∨ D L C) acc'.1 := by
+  rw [scrollOne_eq] at h
+  unfold scrollOne' at h
+  simp only [bind, Bind.bind, pure, Pure.pure, St.fuel] at h
+  have hfuel : acc.1.tree.wins.size + 1 = t0.wins.size + 1 := by rw [hl.wins]
+  -- every cell of the rectangle is exposed from the scrolled window, in any tree with this store
+  have hex : ∀ L C, ρ.Mem L C → ∀ t : Tree, t.wins = t0.wins → ExposedAt t (t0.wins.size + 1) win (L - T') (C - L') L C := by
+    intro L C hm t ht
+    exact exposedAt_congr ht _ _ _ _ _ _ (hexp L C hm).1
+  have hom : ∀ L C, ρ.Mem L C → (ρ.translate (-T') (-L')).Mem (L - T') (C - L') := by
+    intro L C hm
+    simp only [Rect.translate, Rect.Mem, Rect.bottom, Rect.right] at hm ⊢
+    omega
+  -- the whole rectangle exposed: common to "shift too large" and "terminal refuses"
+  have whole : ∀ (st1 : St) (t' : Tree) (ret' dp' : Bool), SLoopOk t0 st0 st1 → st1.screen = acc.1.screen →
+      (∀ L C, ¬ ρ.Mem L C → Covered acc.1.tree.root.damage L C → Covered st1.tree.root.damage L C) →
+      expose st1.tree (t0.wins.size + 1) win (some (ρ.translate (-T') (-L'))) = .ok t' →
+      SLoopOk t0 st0 ({ st1 with tree := t' }, ret', dp').1 ∧
+        MixedG F F' (fun L C => ρ.Mem L C ∨ D L C) ({ st1 with tree := t' }, ret', dp').1 := by
+    intro st1 t' ret' dp' hl1 hscr hout he
+    obtain ⟨a1, a2, a3, a4, a5, a6⟩ := expose_grow st1.tree t' _ win _ he hl1.nonempty (rootsPositive_wins hl1.wins hpos)
+    have := sLoopOk_expose hl1 a1 a2 (a3 hl1.dinv) a4 st1.screen
+    refine ⟨this, mixedG_grow F F' D ρ acc.1 _ hM (fun L C _ => by show st1.screen L C = _; rw [hscr])
+      (fun L C hm hc => a5 L C (hout L C hm hc)) (fun L C hm => Or.inl ?_)⟩
+    exact a6 L C _ _ (hom L C hm) (hex L C hm st1.tree hl1.wins)
+  split at h
+  · -- shift too large
+    rw [hfuel] at h
+    cases he : expose acc.1.tree (t0.wins.size + 1) win (some (ρ.translate (-T') (-L'))) with
+    | ub e => rw [he] at h; cases h
+    | ok t' =>
+      rw [he] at h
+      simp only [Res.ok.injEq] at h
+      subst h
+      exact whole acc.1 t' _ _ hl rfl (fun _ _ _ hc => hc) he
+  · cases hsd : shiftDamage ρ d r acc.1.tree.root.damage [] with
+    | ub e => rw [hsd] at h; cases h
+    | ok dmg1 =>
+      rw [hsd] at h
+      simp only at h
+      obtain ⟨s1, s2⟩ := shiftDamage_spec ρ d r hρ _ [] dmg1 hsd hl.nonempty RectSet.invS_nil
+      generalize ht1 : ({ acc.1.tree with root := { acc.1.tree.root with damage := dmg1 } } : Tree) = t1 at h
+      have h1w : t1.wins = acc.1.tree.wins := by rw [← ht1]
+      have h1d : t1.root.damage = dmg1 := by rw [← ht1]
+      have hl1 : SLoopOk t0 st0 { acc.1 with tree := t1 } :=
+        { wins := h1w.trans hl.wins
+          changes := by rw [← ht1]; exact hl.changes
+          tl := hl.tl, tc := hl.tc, pens := hl.pens
+          nonempty := by rw [h1d]; exact s1.1
+          dinv := by rw [h1d]; exact (RectSet.inv_iff _).2 s1
+          flags := by
+            intro hd
+            rw [h1d] at hd
+            have hne0 : acc.1.tree.root.damage ≠ [] := by
+              intro h0
+              rw [h0, shiftDamage_nil] at hsd
+              cases hsd
+              exact hd rfl
+            have := hl.flags hne0
+            rw [← ht1]
+            exact this
+          later := by rw [← ht1]; exact hl.later }
+      have hout : ∀ L C, ¬ ρ.Mem L C → Covered acc.1.tree.root.damage L C → Covered t1.root.damage L C := by
+        intro L C hm hc
+        rw [h1d]
+        obtain ⟨rj, hrj, hmem⟩ := hc
+        exact (s2 L C).2 (Or.inr ⟨rj, hrj, Or.inl ⟨hmem, hm⟩⟩)
+      rw [hfuel] at h
+      split at h
+      · -- the terminal scrolls
+        cases hv : stripV t1 (t0.wins.size + 1) win (ρ.translate (-T') (-L')) ρ.cols d with
+        | ub e => rw [hv] at h; cases h
+        | ok t2 =>
+          rw [hv] at h
+          simp only at h
+          cases hh : stripH t2 (t0.wins.size + 1) win (ρ.translate (-T') (-L')) ρ.lines r with
+          | ub e => rw [hh] at h; cases h
+          | ok t3 =>
+            rw [hh] at h
+            simp only [Res.ok.injEq] at h
+            subst h
+            unfold stripV at hv
+            unfold stripH at hh
+            obtain ⟨a1, a2, a3, a4, a5, a6, a7⟩ := strip_step t1 t2 _ win _ _ _ _ hv hl1.nonempty (rootsPositive_wins hl1.wins hpos)
+            have hw2 : t2.wins = t0.wins := a1.trans hl1.wins
+            obtain ⟨b1, b2, b3, b4, b5, b6, b7⟩ := strip_step t2 t3 _ win _ _ _ _ hh a2 (rootsPositive_wins hw2 hpos)
+            have hl2 := sLoopOk_expose hl1 a1 a2 (a3 hl1.dinv) a4 acc.1.screen
+            have hl3 := sLoopOk_expose hl2 b1 b2 (b3 (a3 hl1.dinv)) b4
+              (termScroll acc.1.tlines acc.1.tcols acc.1.screen ρ d r (Cell.blank pen))
+            refine ⟨hl3, mixedG_grow F F' D ρ acc.1 _ hM
+              (fun L C hm => termScroll_outside _ _ _ _ _ _ _ L C hm)
+              (fun L C hm hc => b5 L C (a5 L C (hout L C hm hc))) ?_⟩
+            intro L C hm
+            obtain ⟨_, hnd, q1, q2, q3, q4⟩ := hexp L C hm
+            have hmm := hm
+            simp only [Rect.Mem, Rect.bottom, Rect.right] at hmm
+            by_cases hin : ρ.Mem (L + d) (C + r)
+            · -- the cell receives the cell `(d, r)` away
+              obtain ⟨_, hnd2, p1, p2, p3, p4⟩ := hexp _ _ hin
+              have hscr : termScroll acc.1.tlines acc.1.tcols acc.1.screen ρ d r (Cell.blank pen) L C =
+                  acc.1.screen (L + d) (C + r) :=
+                termScroll_inside _ _ _ _ _ _ _ L C hm (by rw [hl.tl, hl.tc]; exact ⟨q1, q2, q3, q4⟩) hin
+                  (by rw [hl.tl, hl.tc]; exact ⟨p1, p2, p3, p4⟩)
+              rcases hM (L + d) (C + r) with hc | ⟨hd', _⟩ | ⟨_, hs⟩
+              · left
+                apply b5; apply a5
+                rw [h1d]
+                obtain ⟨rj, hrj, hmem⟩ := hc
+                exact (s2 L C).2 (Or.inr ⟨rj, hrj, Or.inr ⟨hm, hmem, hin⟩⟩)
+              · exact absurd hd' hnd2
+              · right
+                intro v hv'
+                show termScroll acc.1.tlines acc.1.tcols acc.1.screen ρ d r (Cell.blank pen) L C = _
+                rw [hscr]
+                exact hs v (hsh L C hm hin v hv')
+            · -- a vacated cell: inside one of the exposed strips
+              left
+              have hex1 := hex L C hm t1 hl1.wins
+              have hex2 := hex L C hm t2 hw2
+              simp only [Rect.Mem, Rect.bottom, Rect.right] at hin
+              by_cases hv1 : L + d ≥ ρ.top + ρ.lines
+              · apply b5
+                refine a6 (by omega) L C _ _ ?_ hex1
+                simp only [Rect.translate, Rect.Mem, Rect.bottom, Rect.right]
+                omega
+              · by_cases hv2 : L + d < ρ.top
+                · apply b5
+                  refine a7 (by omega) (by omega) L C _ _ ?_ hex1
+                  simp only [Rect.translate, Rect.Mem, Rect.bottom, Rect.right]
+                  omega
+                · by_cases hh1 : C + r ≥ ρ.left + ρ.cols
+                  · refine b6 (by omega) L C _ _ ?_ hex2
+                    simp only [Rect.translate, Rect.Mem, Rect.bottom, Rect.right]
+                    omega
+                  · refine b7 (by omega) (by omega) L C _ _ ?_ hex2
+                    simp only [Rect.translate, Rect.Mem, Rect.bottom, Rect.right]
+                    omega
+      · -- the terminal refuses: the whole rectangle is exposed
+        cases he : expose t1 (t0.wins.size + 1) win (some (ρ.translate (-T') (-L'))) with
+        | ub e => rw [he] at h; cases h
+        | ok t' =>
+          rw [he] at h
+          simp only [Res.ok.injEq] at h
+          subst h
+          exact whole { acc.1 with tree := t1 } t' _ _ hl1 rfl hout he
+
+/-- **The loop over the visible region.** -/
+theorem scrollLoopG_step (oracle : Oracle) (F F' : Int → Int → Option Cell) (t0 : Tree) (st0 : St) (win : Id)
+    (T' L' d r : Int) (pen : Pen) (hpos : RootsPositive t0) :
+    ∀ (rest : List Rect) (D : Int → Int → Prop) (acc acc' : St × Bool × Bool),
+    scrollLoop oracle win T' L' d r pen rest acc = .ok acc' →
+    SLoopOk t0 st0 acc.1 → (∀ ρ ∈ rest, ρ.Nonempty) → rest.Pairwise Rect.Disjoint →
+    (∀ ρ ∈ rest, ∀ L C, ρ.Mem L C → ExposedAt t0 (t0.wins.size + 1) win (L - T') (C - L') L C ∧ ¬ D L C ∧
+      0 ≤ L ∧ L < st0.tlines ∧ 0 ≤ C ∧ C < st0.tcols) →
+    (∀ ρ ∈ rest, ∀ L C, ρ.Mem L C → ρ.Mem (L + d) (C + r) → ∀ v, F' L C = some v → F (L + d) (C + r) = some v) →
+    MixedG F F' D acc.1 →
+    SLoopOk t0 st0 acc'.1 ∧ MixedG F F' (fun L C => Covered rest L C ∨ D L C) acc'.1 := by
+  intro rest
+  induction rest with
+  | nil =>
+    intro D acc acc' h hl _ _ _ _ hM
+    simp only [scrollLoop] at h
+    cases h
+    exact ⟨hl, mixedG_congr F F' D _ _ (fun L C => ⟨Or.inr, fun hx => by
+      rcases hx with hx | hx
+      · exact absurd hx (RectSet.covered_nil L C)
+      · exact hx⟩) hM⟩
+  | cons ρ rest ih =>
+    intro D acc acc' h hl hne hdis hexp hsh hM
+    simp only [scrollLoop, bind, Bind.bind] at h
+    cases h1 : scrollOne oracle win T' L' d r pen acc ρ with
+    | ub e => rw [h1] at h; cases h
+    | ok acc1 =>
+      rw [h1] at h
+      simp only at h
+      obtain ⟨a1, a2⟩ := scrollOneG_step oracle F F' t0 st0 win T' L' d r pen D acc acc1 ρ h1 hpos hl
+        (hne ρ List.mem_cons_self) (hexp ρ List.mem_cons_self) (hsh ρ List.mem_cons_self) hM
+      have hdis' := List.pairwise_cons.1 hdis
+      obtain ⟨b1, b2⟩ := ih (fun L C => ρ.Mem L C ∨ D L C) acc1 acc' h a1 (fun q hq => hne q (List.mem_cons_of_mem _ hq)) hdis'.2
+        (fun q hq L C hm => by
+          obtain ⟨c1, c2, c3⟩ := hexp q (List.mem_cons_of_mem _ hq) L C hm
+          refine ⟨c1, ?_, c3⟩
+          rintro (hx | hx)
+          · exact hdis'.1 q hq L C ⟨hx, hm⟩
+          · exact c2 hx)
+        (fun q hq => hsh q (List.mem_cons_of_mem _ hq)) a2
+      refine ⟨b1, mixedG_congr F F' _ _ _ (fun L C => ?_) b2⟩
+      rw [RectSet.covered_cons]
+      constructor
+      · rintro (hx | hx | hx)
+        · exact Or.inl (Or.inr hx)
+        · exact Or.inl (Or.inl hx)
+        · exact Or.inr hx
+      · rintro ((hx | hx) | hx)
+        · exact Or.inr (Or.inl hx)
+        · exact Or.inl hx
+        · exact Or.inr (Or.inr hx)
+
 end WinFlush
 end Tickit
